@@ -271,7 +271,19 @@ def companion(case, model):
     x0 = [S.sig(v * 0.6, 4) for v in su["x0"]]
     t0 = su["t0"] + 0.25
     t = np.array([t0 + 0.5, t0 + 1.0, t0 + 1.75])
-    return pygom.SquareLoss(theta, model, x0, t0, t, np.ones(3), names[-1])
+    comp = pygom.SquareLoss(theta, model, x0, t0, t, np.ones(3), names[-1])
+    comp._pbt_thetas = [np.array(theta, float), np.array([S.sig(v * 0.9, 4) if q in tset else v for q, v in zip(m["params"], theta)], float)]
+    comp._pbt_calls = 0
+    return comp
+
+
+def companion_work(comp):
+    """What the other user of the shared model does between two of our calls: a cost and a gradient evaluation at
+    parameters that alternate between two values (explicitly passed, as an optimiser would)."""
+    comp._pbt_calls += 1
+    th = comp._pbt_thetas[comp._pbt_calls % 2]
+    comp.cost(th.copy())
+    comp.gradient(th.copy())
 
 
 def interleave(obj, methods, between):
